@@ -246,6 +246,9 @@ func runHotRestartCase(c *checkCtx, cs hrCase, can *canary) (res hrResult) {
 		world.Lock() // wait for round trips in flight
 		world.Unlock()
 	}
+	dial := &hrDialStat{}
+	hrDial.Store(sm, dial)
+	defer hrDial.Delete(sm)
 	tRestart := atomic.AddInt64(&clock, 1)
 	can.reset()
 	t0 := time.Now()
@@ -337,6 +340,22 @@ func runHotRestartCase(c *checkCtx, cs hrCase, can *canary) (res hrResult) {
 			old.ln.mu.Unlock()
 			if completed {
 				res.inconcl = fmt.Sprintf("the injected foreign-epoch event was handled after the announced restart had completed (epochs %v): a legitimate new restart, scenario not judged", epochs)
+				stopTraffic()
+				return
+			}
+		}
+		{
+			// A hand-over that did not finish inside the protocol's own 2 s window (the listener gave up: not in its done state)
+			// although no fault was injected is only judged when the client's part was fast: if the handshakes with the new server
+			// took a large part of that window (or the scheduler canary is unhealthy) the time-out is the machine's, and what the
+			// still queued restart / foreign-epoch events do afterwards is a new restart, legitimately.
+			old.ln.mu.Lock()
+			lnDone := old.ln.state == hotRestartDoneState && old.ln.hotRestartAckCount == 0
+			old.ln.mu.Unlock()
+			dialMs := atomic.LoadInt64(&dial.totalNs) / 1e6
+			if !lnDone && (dialMs >= 700 || !can.healthy(200*time.Millisecond)) {
+				res.inconcl = fmt.Sprintf("the hand-over did not complete inside the protocol's 2 s window and the client's handshakes with the new server took %d ms of it "+
+					"(epochs %v, listener left the state after %d ms): a time-out of the machine, not judged", dialMs, epochs, res.listenerMs)
 				stopTraffic()
 				return
 			}
@@ -475,6 +494,11 @@ func runHotRestartCase(c *checkCtx, cs hrCase, can *canary) (res hrResult) {
 
 var hrForeign sync.Map // *Listener / *SessionManager -> true: inject foreign-epoch events for this execution
 
+// hrDial: per manager, the time its hot-restart handler spent inside newClientSession (dial + handshake with the new server)
+type hrDialStat struct{ startNs, totalNs int64 }
+
+var hrDial sync.Map
+
 func checkHotRestart(c *checkCtx) {
 	c.rule = "scenario list (complete hand-over, foreign-epoch events injected, new server not accepting, client session lost mid-way, two restarts " +
 		"back to back) x 1..4 sessions x file/memfd x PRNG delays between the per-session restart events (hooks LnHotRestartSent, " +
@@ -497,7 +521,22 @@ func checkHotRestart(c *checkCtx) {
 			}
 		}
 	})
+	k.on(vpSMHotRestartBeforeNew, func(obj interface{}, n int64) {
+		if m, _ := obj.(*SessionManager); m != nil {
+			if v, ok := hrDial.Load(m); ok {
+				atomic.StoreInt64(&v.(*hrDialStat).startNs, time.Now().UnixNano())
+			}
+		}
+	})
 	k.on(vpSMHotRestartAfterNew, func(obj interface{}, n int64) {
+		if m, _ := obj.(*SessionManager); m != nil {
+			if v, ok := hrDial.Load(m); ok {
+				st := v.(*hrDialStat)
+				if s0 := atomic.LoadInt64(&st.startNs); s0 != 0 {
+					atomic.AddInt64(&st.totalNs, time.Now().UnixNano()-s0)
+				}
+			}
+		}
 		if m, _ := obj.(*SessionManager); m != nil {
 			if _, ok := hrForeign.Load(m); ok {
 				// sm's lock is held by the caller; pools[n] is still the old pool here
